@@ -19,11 +19,11 @@ echo "== meta: place=$place demo=$demo"; echo "== cmd: $cmd"
 src=$M/$(basename "$demo"); [ -f "$src" ] || src=$(ls $M/*_test.go $M/*.go 2>/dev/null | head -1)
 dst="$place"; case "$dst" in */) dst="$dst$(basename $src)";; esac
 [ -d "$WT/$dst" ] && dst="$dst/$(basename $src)"
-rundemo() { (cd $WT && cp "$src" "$WT/$dst" && eval "$cmd" >/tmp/seedtest-demo.log 2>&1; rc=$?; rm -f "$WT/$dst"; return $rc); }
-echo "== demo on clean tree (expect pass)"; rundemo; echo "rc=$?"; tail -3 /tmp/seedtest-demo.log
+rundemo() { (cd $WT && cp "$src" "$WT/$dst" && eval "$cmd" >/tmp/seedtest-demo-$(basename $WT).log 2>&1; rc=$?; rm -f "$WT/$dst"; return $rc); }
+echo "== demo on clean tree (expect pass)"; rundemo; echo "rc=$?"; tail -3 /tmp/seedtest-demo-$(basename $WT).log
 git apply $M/patch.diff || { echo "PATCH DOES NOT APPLY"; exit 8; }
 echo "== build"; $GO build ./... && echo build-ok
-echo "== demo with change (expect fail)"; rundemo; echo "rc=$?"; tail -5 /tmp/seedtest-demo.log
+echo "== demo with change (expect fail)"; rundemo; echo "rc=$?"; tail -5 /tmp/seedtest-demo-$(basename $WT).log
 pkgs=$(git diff --name-only | xargs -n1 dirname | sort -u | sed 's#^#./#' | tr '\n' ' ')
 echo "== unit tests of changed packages (untagged): $pkgs"; $GO test -vet=off -count=1 $pkgs 2>&1 | grep -v "^Saved\|^crypto store" | tail -6
 for p in $PROPS; do echo "== our check $p against the change"; (cd /verif && VF_REPO=$WT ./vf check $p --tier quick 2>&1 | grep -E "VIOLATION|KNOWN|tier=|BROKEN" | cut -c1-330 | grep -v "did not occur in this run" | head -8); done
